@@ -714,6 +714,21 @@ fn growth_cases(tier: Tier) -> Vec<Vec<u8>> {
         Tier::Thorough => &[64, 255, 256, 257, 1024, 4096, 16384],
     };
     let mut out = Vec::new();
+    // nests whose every layer stays below the recursion limit but whose depths multiply: a dotted key of d segments
+    // in front of each of r nested inline tables / arrays / headers (valid documents, closed properly)
+    {
+        let l = calibrated_limit();
+        for d in [2usize, l / 2, l - 2, l - 1] {
+            for r in [1usize, 2, 5, 10, 25] {
+                let key = vec!["a"; d].join(".");
+                out.push(format!("k = {}1{}\n", format!("{{ {} = ", key).repeat(r), " }".repeat(r)).into_bytes());
+                out.push(format!("{} = {}1{}\n", key, format!("{{ {} = ", key).repeat(r), " }".repeat(r)).into_bytes());
+                out.push(format!("k = {}1{}\n", format!("[{{ {} = ", key).repeat(r), " }]".repeat(r)).into_bytes());
+                out.push(format!("[{}]\n{} = {}1{}\n", key, key, format!("{{ {} = ", key).repeat(r), " }".repeat(r)).into_bytes());
+                out.push(format!("[[{}]]\n{} = {}[]{}\n", key, key, format!("[{{ {} = ", key).repeat(r), " }]".repeat(r)).into_bytes());
+            }
+        }
+    }
     for (pre, suf) in GROWTH_FRAMES {
         for u in &units {
             for k in ks {
